@@ -364,6 +364,181 @@ theorem C10_align_cache {P S D : Type} [DecidableEq S] (skip : Bool) (ms : List 
   rw [h3]
   simp [Align.mem_uniq, seen, rest]
 
+/-! ## Composition: collect = collectResults ∘ map, icollect = imap ∘ passer, align on top of
+the two `icollect` loaders -/
+
+/-- the item one `collect`/`icollect` task delivers for `file` when it does not raise -/
+def passItem (ri : Bool) (rd : Reader) (file : FileArg) : TaskOut Content :=
+  { info := if ri then some file else none,
+    val := match readArg rd file with | .ok (some c) => .val c | _ => .none,
+    warned := match readArg rd file with | .error _ => true | _ => false }
+
+/-- content of a file as `collect` sees it (`none`: reader returned None or read error) -/
+def contentOf (rd : Reader) (file : FileArg) : Option Content :=
+  match readArg rd file with | .ok (some c) => some c | _ => none
+
+private theorem collectOf_map {α φ γ : Type} (k : α → φ) (c : α → Option γ) (l : List α) :
+    collectOf (l.map (fun f => (k f, c f))) = ((l.filter (fun f => (c f).isSome)).map k, l.filterMap c) := by
+  induction l with
+  | nil => rfl
+  | cons f t ih =>
+    simp only [collectOf, List.map_cons, List.filterMap_cons, List.filter_cons] at ih ⊢
+    cases hc : c f with
+    | none => simpa [hc] using ih
+    | some v =>
+      simp only [Option.map_some, List.unzip_cons, ih, Option.isSome_some, if_true, List.map_cons]
+
+private theorem collect_passItems (rd : Reader) (files : List FileArg) :
+    collectResults (files.map (passItem true rd))
+      = ((files.filter (fun f => (contentOf rd f).isSome)).map some, files.filterMap (contentOf rd)) := by
+  unfold collectResults
+  rw [List.map_map]
+  refine Eq.trans (congrArg collectOf (List.map_congr_left
+    (g := fun f => (some f, contentOf rd f)) (fun f _ => ?_))) ?_
+  · simp only [Function.comp, passItem, contentOf]
+    cases readArg rd f with
+    | error e => rfl
+    | ok c => cases c <;> rfl
+  · exact collectOf_map some (contentOf rd) files
+
+private theorem passer_tasks (ri ew : Bool) (rd : Reader) (files : List FileArg)
+    (hok : ∀ f ∈ files, ew = true ∨ ∃ c, readArg rd f = .ok c) :
+    taskList { onContent := true, returnInfo := ri, errToWarn := ew } rd passer files
+      = (files.map (passItem ri rd)).map Except.ok := by
+  simp only [taskList, List.map_map]
+  apply List.map_congr_left
+  intro f hf
+  simp only [Function.comp]
+  cases hr : readArg rd f with
+  | ok c =>
+    rw [C10_passer_task ew ri rd f c hr]
+    cases c <;> simp [passItem, hr]
+  | error e =>
+    rcases hok f hf with h | ⟨c, hc⟩
+    · subst h
+      unfold callMap
+      simp [hr, passItem]
+    · rw [hr] at hc; cases hc
+
+/-- **C10_icollect_compose.**  `icollect` = `imap` with `_pseudo_passer` and `on_content`: for
+every schedule, once the generator has finished it has yielded exactly one item per file, in
+`files=` / `find()` order, carrying that file's content (`None` for a `None` content or, under
+`error_to_warning`, a failed read) — provided no read raises (`hok`). -/
+theorem C10_icollect_compose (W : Nat) (ri ew : Bool) (rd : Reader) (files : List FileArg)
+    (hok : ∀ f ∈ files, ew = true ∨ ∃ c, readArg rd f = .ok c)
+    (sched : List Event) (s : State Err (TaskOut Content))
+    (hrun : run W (taskList { onContent := true, returnInfo := ri, errToWarn := ew } rd passer files)
+      {} sched = some s)
+    (hterm : Terminal (taskList { onContent := true, returnInfo := ri, errToWarn := ew } rd passer files) s) :
+    s.out = files.map (passItem ri rd) ∧ s.failed = none := by
+  have h := (C10_imap_order W _ sched s hrun hterm).1
+  rw [passer_tasks ri ew rd files hok, expected_oks] at h
+  exact ⟨congrArg Prod.fst h, congrArg Prod.snd h⟩
+
+/-- **C10_collect_compose.**  `collect` = `collectResults (map …)`: for every schedule of the
+thread pool, when `map` returns, `collect` returns exactly the non-`None` contents of the files
+in file order, each paired with its file. -/
+theorem C10_collect_compose (W : Nat) (ew : Bool) (rd : Reader) (files : List FileArg)
+    (hok : ∀ f ∈ files, ew = true ∨ ∃ c, readArg rd f = .ok c)
+    (sched : List MEvent) (s : MState Err (TaskOut Content)) (x : List (TaskOut Content) × Option Err)
+    (hrun : mrun W (taskList { onContent := true, returnInfo := true, errToWarn := ew } rd passer files)
+      {} sched = some s)
+    (hx : mresult (taskList { onContent := true, returnInfo := true, errToWarn := ew } rd passer files).length s
+      = some x) :
+    x.2 = none ∧
+    (collectResults x.1).2 = files.filterMap (contentOf rd) ∧
+    (collectResults x.1).1 = (files.filter (fun f => (contentOf rd f).isSome)).map some := by
+  have h := (C10_map_order W _ sched s hrun).1 x hx
+  rw [passer_tasks true ew rd files hok, expected_oks] at h
+  subst h
+  rw [collect_passItems]
+  exact ⟨rfl, rfl, rfl⟩
+
+/-- what the secondary loader of `align` delivers for file `s` -/
+def loadOf (rd : Reader) (s : Nat) : Option Int :=
+  match rd s with | .ok c => c | .error _ => none
+
+/-- view of an `icollect` item of a single file as `(file id, content)` -/
+def itemView (t : TaskOut Content) : Nat × Option Int :=
+  (match t.info with | some (.single f) => f | _ => 0,
+   match t.val with | .val (.one c) => some c | _ => none)
+
+private theorem itemView_passItem (ri : Bool) (rd : Reader) (f : Nat) :
+    (itemView (passItem ri rd (.single f))).2 = loadOf rd f ∧
+    itemView (passItem true rd (.single f)) = (f, loadOf rd f) := by
+  simp only [itemView, passItem, readArg, loadOf]
+  cases rd f with
+  | error e => simp
+  | ok c => cases c <;> simp
+
+/-- **C10_align_end_to_end.**  `align` composed with its two loaders.  Primaries are read by
+`self.icollect(files=primaries, error_to_warning=skip)` and the distinct secondaries by
+`other.icollect(files=unique_secondaries, return_info=True, error_to_warning=skip)`, each a
+thread pool with its own arbitrary schedule (`schedP`, `schedS`).  If no read raises (always so
+under `skip_errors`), then whatever the two schedules were:
+* the secondary loader's stream is exactly the loader list the align model starts from
+  (`Align.initSt`): one item per *distinct* secondary — so each is read once — in
+  first-occurrence order, with its own `FileInfo`;
+* the primary loader delivers one content per match in order; and
+* `align` raises no AlignError/StopIteration and yields exactly the specified pairs. -/
+theorem C10_align_end_to_end (Wp Ws : Nat) (skip : Bool) (rdP rdS : Reader)
+    (ms : List (Nat × List Nat)) (hne : ms ≠ [])
+    (hokP : ∀ m ∈ ms, skip = true ∨ ∃ c, rdP m.1 = .ok c)
+    (hokS : ∀ x ∈ Align.flat ms, skip = true ∨ ∃ c, rdS x = .ok c)
+    (schedP schedS : List Event) (sP sS : State Err (TaskOut Content))
+    (hrunP : run Wp (taskList { onContent := true, returnInfo := false, errToWarn := skip } rdP passer
+      (ms.map (fun m => FileArg.single m.1))) {} schedP = some sP)
+    (htermP : Terminal (taskList { onContent := true, returnInfo := false, errToWarn := skip } rdP passer
+      (ms.map (fun m => FileArg.single m.1))) sP)
+    (hrunS : run Ws (taskList { onContent := true, returnInfo := true, errToWarn := skip } rdS passer
+      ((Align.uniq (Align.flat ms)).map FileArg.single)) {} schedS = some sS)
+    (htermS : Terminal (taskList { onContent := true, returnInfo := true, errToWarn := skip } rdS passer
+      ((Align.uniq (Align.flat ms)).map FileArg.single)) sS) :
+    sS.out.map itemView = (Align.initSt ms (loadOf rdS) : Align.St Nat Nat Int).loader ∧
+    sP.out.map (fun t => (itemView t).2) = ms.map (fun m => loadOf rdP m.1) ∧
+    (let st := Align.align skip ms (sP.out.map (fun t => (itemView t).2)) (loadOf rdS)
+     st.err = none ∧
+     st.out = Align.specOut skip ms (ms.map (fun m => loadOf rdP m.1)) (loadOf rdS) ∧
+     st.requests = Align.uniq (Align.flat ms) ∧ st.cache = []) := by
+  have readSingle : ∀ (rd : Reader) (f : Nat), (∃ c, rd f = .ok c) → ∃ c, readArg rd (.single f) = .ok c := by
+    intro rd f ⟨c, hc⟩
+    exact ⟨c.map Content.one, by simp [readArg, hc]⟩
+  have hP := C10_icollect_compose Wp false skip rdP (ms.map (fun m => FileArg.single m.1))
+    (by
+      intro f hf
+      obtain ⟨m, hm, rfl⟩ := List.mem_map.mp hf
+      exact (hokP m hm).imp id (readSingle rdP m.1)) schedP sP hrunP htermP
+  have hS := C10_icollect_compose Ws true skip rdS ((Align.uniq (Align.flat ms)).map FileArg.single)
+    (by
+      intro f hf
+      obtain ⟨x, hx, rfl⟩ := List.mem_map.mp hf
+      exact (hokS x ((Align.mem_uniq _ _).mp hx)).imp id (readSingle rdS x)) schedS sS hrunS htermS
+  have e1 : sS.out.map itemView = (Align.initSt ms (loadOf rdS) : Align.St Nat Nat Int).loader := by
+    rw [hS.1]
+    simp only [Align.initSt, List.map_map]
+    apply List.map_congr_left
+    intro x _
+    exact (itemView_passItem true rdS x).2
+  have e2 : sP.out.map (fun t => (itemView t).2) = ms.map (fun m => loadOf rdP m.1) := by
+    rw [hP.1]
+    simp only [List.map_map]
+    apply List.map_congr_left
+    intro m _
+    exact (itemView_passItem false rdP m.1).1
+  refine ⟨e1, e2, ?_⟩
+  rw [e2]
+  obtain ⟨h1, h2, h3, _, _, h6, _⟩ := C10_align_spec skip ms (ms.map (fun m => loadOf rdP m.1)) (loadOf rdS)
+    (by simp) hne
+  exact ⟨h1, h2, h3, h6⟩
+
+/-- user `args=` / `kwargs=`: every task calls the function with the same user arguments
+(`callMapU` threads them unchanged; the wrapper's per-task `list(args)` copy is what the
+correspondence run checks on the real code with one shared list object) -/
+theorem C10_user_args_per_task (cfg : Cfg) (rd : Reader) (uargs : List String)
+    (kwargs : List (String × String))
+    (func : List String → List (String × String) → Args → Except Err (Option β)) (files : List FileArg) :
+    files.map (callMapU cfg rd uargs kwargs func) = taskList cfg rd (func uargs kwargs) files := rfl
+
 /-! ## Non-vacuity: concrete schedules, states and hypotheses -/
 
 section Examples
@@ -447,9 +622,31 @@ def exMs : List (Nat × List Nat) := [(0, [0, 1]), (1, [1, 2]), (2, [0])]
 #guard (Align.stepSec false (0 : Nat) (some (1 : Int))
   ({ loader := [(1, some 11)], usage := fun _ => 1 } : Align.St Nat Nat Int) 0).err == some .alignError
 
+-- composition theorems: their hypotheses hold for a concrete reader, match list and schedules
+def exRdOk : Reader := fun f => .ok (some (1000 + (f : Int)))
+def exSecTasks := taskList { onContent := true, returnInfo := true, errToWarn := false } exRdOk passer
+  ((Align.uniq (Align.flat exMs)).map FileArg.single)
+def exPrimTasks := taskList { onContent := true, returnInfo := false, errToWarn := false } exRdOk passer
+  (exMs.map (fun m => FileArg.single m.1))
+
+example : (∀ m ∈ exMs, false = true ∨ ∃ c, exRdOk m.1 = .ok c) ∧
+    (∀ x ∈ Align.flat exMs, false = true ∨ ∃ c, exRdOk x = .ok c) ∧
+    (∃ sched s, run 2 exSecTasks {} sched = some s ∧ Terminal exSecTasks s) ∧
+    (∃ sched s, run 3 exPrimTasks {} sched = some s ∧ Terminal exPrimTasks s) :=
+  ⟨fun m _ => Or.inr ⟨_, rfl⟩, fun x _ => Or.inr ⟨_, rfl⟩,
+   ⟨(drive 2 exSecTasks [2, 1, 0]).2, (drive 2 exSecTasks [2, 1, 0]).1, by rfl, Or.inr ⟨by rfl, by rfl⟩⟩,
+   ⟨(drive 3 exPrimTasks [1, 2, 0]).2, (drive 3 exPrimTasks [1, 2, 0]).1, by rfl, Or.inr ⟨by rfl, by rfl⟩⟩⟩
+
+#guard (drive 2 exSecTasks [2, 1, 0]).1.out.map itemView == [(0, some 1000), (1, some 1001), (2, some 1002)]
+#guard ((Align.initSt exMs (loadOf exRdOk) : Align.St Nat Nat Int).loader) == [(0, some 1000), (1, some 1001), (2, some 1002)]
+-- collect over files with a None content and (under error_to_warning) a failing read
+#guard collectResults ([FileArg.single 0, .single 1, .single 2].map (passItem true exRd))
+  == ([some (.single 0)], [Content.one 1000])
+
 end Examples
 
 assert_axioms C10_imap_order C10_imap_order_values C10_imap_maximal C10_imap_terminates
   C10_imap_bound C10_map_order C10_exception_reaches_caller C10_wrapper_raises
   C10_return_info_pairs C10_read_error_isolated C10_warning_only_under_flags
   C10_collect_drops_none C10_passer_task C10_align_spec C10_align_cache
+  C10_icollect_compose C10_collect_compose C10_align_end_to_end C10_user_args_per_task
